@@ -84,13 +84,17 @@ KEYS = {
     "ttl": "cache-entry-recreated-on-miss-outlives-call-token-ttl",
     "type": "cache-hit-skips-declared-call-state-type-check",
 }
-HDR = "From Coq Require Import List NArith Bool.\nFrom VGI Require Import M_CallCache G_CallCache Corr.\nImport ListNotations.\nOpen Scope N_scope."
+HDR = "From Coq Require Import List NArith Bool.\nFrom VGI Require Import M_CallCache Corr.\nImport ListNotations.\nOpen Scope N_scope."
+# the miss-path flag of the model comes from the regenerated source; if the translation is broken the correspondence still
+# runs against the model of the unchanged source (flag false), so that a failing input can be found
+HDR_GEN = HDR + "\nFrom VGI Require Import G_CallCache.\nDefinition src_dated_miss : bool := gen_dated_miss."
+HDR_NOGEN = HDR + "\nDefinition src_dated_miss : bool := false."
 
 
-def translate(ctx: Any) -> None:
+def translate(ctx: Any) -> bool:
     from translate import t_c14_cache
 
-    ctx.gen("G_CallCache", lambda: t_c14_cache.generate(ctx.repo))
+    return bool(ctx.gen("G_CallCache", lambda: t_c14_cache.generate(ctx.repo)))
 
 
 # ---------------------------------------------------------------------------------------------------------------
@@ -324,7 +328,7 @@ class World:
     def coq_case(self) -> tuple[str, str]:
         from vlib.coqterm import cN, clist
 
-        inp = f"(gen_dated_miss, {cN(self.ttl)}, {clist(cN(c) for c in self.caps)}, {cN(self.t0q)}, {clist(self.hist)})"
+        inp = f"(src_dated_miss, {cN(self.ttl)}, {clist(cN(c) for c in self.caps)}, {cN(self.t0q)}, {clist(self.hist)})"
         exp = self.expected + [self.sizes()]
         out = clist(clist(cN(x) for x in row) for row in exp)
         return inp, out
@@ -506,7 +510,7 @@ class Driver:
 
 
 def run(ctx: Any) -> None:
-    translate(ctx)
+    hdr = HDR_GEN if translate(ctx) else HDR_NOGEN
     ctx.prove(
         ["prop/P_C14.vo", "refuted/R_C14.vo"],
         {
@@ -534,7 +538,7 @@ def run(ctx: Any) -> None:
         caps = {"lru": [2, 0], "collide": [3, 1]}.get(which, [3, 2])
         worlds.append(D.directed(10, caps, t0q + rng.randrange(4), which))
         ctx.tally("scenario", which)
-    n_hist = 14 if quick else 160
+    n_hist = 14 if quick else 480
     for i in range(n_hist):
         nw = rng.choice([2, 3])
         caps = [rng.randrange(0, 4) for _ in range(nw)]
@@ -555,11 +559,11 @@ def run(ctx: Any) -> None:
     ctx.sample({"ttl": worlds[1].ttl, "caps": worlds[1].caps, "history": worlds[1].plain, "outcomes": worlds[1].expected})
     for k, v in sorted(D.arms.items()):
         ctx.tally("arm", f"{k} x{v}")
-    ok, bad, clog = ctx.coq_mismatches(HDR, "run_case", "list_eqb (list_eqb N.eqb)", cases, "bool * N * list N * N * list req", "list (list N)", shard=8)
+    ok, bad, clog = ctx.coq_mismatches(hdr, "run_case", "list_eqb (list_eqb N.eqb)", cases, "bool * N * list N * N * list req", "list (list N)", shard=8)
     ctx.count("model_cases", len(cases))
     ctx.obligation("correspondence:M_CallCache.run_case", "correspondence", ok and not bad, clog if not ok else f"{len(bad)} of {len(cases)} histories disagree")
     for i in bad[:3]:
-        shown = ctx.coq_show(HDR, f"run_case {cases[i][0]}")
+        shown = ctx.coq_show(hdr, f"run_case {cases[i][0]}")
         ctx.violation("model-impl-disagree", "implementation and model answer a history differently",
                       {"ttl": worlds[i].ttl, "caps": worlds[i].caps, "history": worlds[i].plain, "impl": worlds[i].expected + [worlds[i].sizes()], "model": shown[-1500:]})
 
